@@ -1,4 +1,4 @@
-* hand-runnable configuration of the design-level model (checks/c16.py writes its own per tier)
+\* hand-runnable configuration of the design-level model (checks/c16.py writes its own per tier)
 CONSTANTS
   Dim = 2
   MaxC = 1
